@@ -1,9 +1,9 @@
 SPECIFICATION Spec
 CONSTANTS
-  MaxNodes = 5
-  Eps = {1,2,3}
-  InitN = 3
-  MaxLoad = 2
+  MaxNodes = 4
+  Eps = {1,2}
+  InitN = 2
+  MaxLoad = 1
   P = 100
   Repaired = TRUE
   Faults = TRUE
